@@ -36,8 +36,9 @@ class NeedDecision(Exception):
 class PyRaise(Exception):
     """An evaluated expression raises the builtin exception `cls` (modelled objects only)."""
 
-    def __init__(self, cls):
+    def __init__(self, cls, node=None):
         self.cls = cls
+        self.node = node  # the `raise` statement of an executed local helper the exception comes from (None: implicit)
 
 
 class RPath:
@@ -730,7 +731,7 @@ class Runner:
                     self._exec(node)
             except PyRaise as pr:
                 pending = pr.cls
-                p.endnode = node.ast
+                p.endnode = pr.node if pr.node is not None else node.ast
                 nid = self._exc_target(nid, pr.cls)
                 continue
             if not normal:
@@ -976,851 +977,6 @@ def entails_ge0(facts, want):
         if d is not None and d >= 0:
             return True
     return False
-
-
-# ---------------------------------------------------------------------------
-# the reader of the OSCORE option: windows of the option bytes
-
-class OptionReader(Runner):
-    """Interprets _uncompress-like code: the first parameter P is a byte string; slices of it are *windows*
-    (lo, hi) of P, indexing yields the byte atoms `B[i]`, `x & MASK` of a byte the atoms `B[i]&m`, lengths of windows
-    are `len(P) - lo`.  All conditions over these become integer normal forms; everything else stays uninterpreted.
-
-    Window arithmetic relies on Python's slice semantics: P[a:][x:] == P[a+x:] for non-negative a, x (saturating on both
-    sides), P[a:][x:y] == P[a+x:a+y] when a+y <= len(P) (the bound every stored field is required to have by C11.h), and
-    len(P[a:]) == len(P) - a when a <= len(P) (established by the same bounds checks; for a = 1 by the non-empty test)."""
-
-    def __init__(self, fi, prog, consts, P):
-        super().__init__(fi, prog=prog, fork_values=True)
-        self.consts = consts
-        self.P = P
-        self.LEN = Poly.atom("len(P)")
-
-    def new_state(self):
-        return {"int_facts": set(), "empty": None, "reads": []}
-
-    # -- single bytes read from the option
-    def ev(self, e, bound=frozenset()):
-        out = super().ev(e, bound)
-        if isinstance(e, ast.Subscript) and not bound and isinstance(out, ast.Subscript) and not isinstance(out.slice, ast.Slice):
-            self._byte_read(e, out)
-        return out
-
-    def _ge0(self, want):
-        c = want.const_value()
-        return c >= 0 if c is not None else entails_ge0(self.state["int_facts"], want)
-
-    def _byte_read(self, site, out):
-        """`W[i]` on a window W = P[lo:hi] of the option reads the byte P[lo+i]; it raises IndexError unless lo + i < len(P)
-        (and, for a bounded window, lo + i < hi).  The read is a *decision* of the path like any test: where the integer facts
-        known when the read is evaluated already imply it (a check that follows the read does not count) nothing happens; where
-        they refute it the path continues as an IndexError; otherwise both outcomes are explored, the in-bounds one with the fact
-        added.  Whichever local the window travelled through and whichever spelling established the fact (`not W`,
-        `len(W) < 1`, `len(P) < 2 + n`, a merged check, `try: W[0] except IndexError`) is immaterial."""
-        try:
-            w = self.window(out.value)
-        except AnalysisError:
-            return
-        if w is None:
-            return
-        i = self.intval(out.slice)
-        # bytes, masked bytes and lengths are the atoms of this domain: all non-negative, so a polynomial without a negative
-        # coefficient is non-negative
-        if not (all(v >= 0 for v in i.t.values()) or self._ge0(i)):
-            raise AnalysisError("C11: _uncompress indexes the option with something that may be negative: %s" % txt(out)[:80])
-        pos = w[0] + i
-        known = sorted(map(repr, self.state["int_facts"])) or "nothing"
-        for bound in [self.LEN] + ([w[1]] if w[1] is not None else []):
-            if not self._decide_nf(self._const_or(nf_lt(pos - bound))):
-                self.state["reads"].append((site, False, "byte %r of the option is read where only this is known about its length: %s" % (pos, known)))
-                raise PyRaise("IndexError")
-        self.state["reads"].append((site, True, None))
-
-    # -- windows and integers
-    def window(self, e):
-        """(lo, hi|None) for an evaluated expression denoting a slice of P, else None."""
-        if isinstance(e, ast.Name) and e.id == self.P:
-            return (Poly.const(0), None)
-        if isinstance(e, ast.Constant) and e.value == b"":
-            # the empty byte string: equal to every window of P on a path on which P is known to be empty
-            if self.state["empty"] is True:
-                return (Poly.const(0), Poly.const(0))
-            return None
-        if isinstance(e, ast.Subscript) and isinstance(e.slice, ast.Slice):
-            w = self.window(e.value)
-            if w is None:
-                return None
-            a, b = w
-            sl = e.slice
-            if sl.step is not None:
-                raise AnalysisError("C11.d: _uncompress slices the option with a step")
-            lo = self.intval(sl.lower) if sl.lower is not None else Poly.const(0)
-            hi = self.intval(sl.upper) if sl.upper is not None else None
-            for x in (lo, hi):
-                if x is not None and x.const_value() is not None and x.const_value() < 0:
-                    raise AnalysisError("C11.d: _uncompress slices the option from its end: %s" % txt(e))
-            if hi is None:
-                return (a + lo, b)
-            if b is not None:
-                raise AnalysisError("C11.d: _uncompress cuts a field out of an already bounded slice: %s" % txt(e))
-            return (a + lo, a + hi)
-        return None
-
-    def winlen(self, w):
-        """Length of the window P[lo:hi] (lo <= len(P) by the checks that precede every cut): len(P) - lo for an open one; for a
-        bounded one hi - lo where the option is known to reach hi, len(P) - lo where it is known not to, and a decision of the
-        path otherwise (`s = tail[:1]` followed by `if not s:` is a length check like any other)."""
-        if w[1] is None:
-            return self.LEN - w[0]
-        if (w[1] - w[0]).const_value() == 0:
-            return Poly.const(0)
-        return (w[1] - w[0]) if self._decide_nf(self._const_or(nf_ge0(self.LEN - w[1]))) else (self.LEN - w[0])
-
-    def intval(self, e):
-        if isinstance(e, ast.Constant) and isinstance(e.value, int) and not isinstance(e.value, bool):
-            return Poly.const(e.value)
-        if isinstance(e, ast.Name) and e.id in self.consts:
-            return Poly.const(self.consts[e.id])
-        if isinstance(e, ast.Attribute) and chain(e) and chain(e).split(".")[-1] in self.consts and chain(e).split(".")[0] != self.P:
-            return Poly.const(self.consts[chain(e).split(".")[-1]])
-        if isinstance(e, ast.Subscript) and not isinstance(e.slice, ast.Slice):
-            w = self.window(e.value)
-            if w is not None:
-                i = self.intval(e.slice)
-                if i.const_value() is not None and i.const_value() < 0:
-                    raise AnalysisError("C11.d: _uncompress indexes the option from its end: %s" % txt(e))
-                if w[1] is not None and w[1] == w[0]:
-                    raise AnalysisError("C11.d: _uncompress reads a byte of an empty slice: %s" % txt(e))
-                return Poly.atom("B[%r]" % (w[0] + i,))
-        if isinstance(e, ast.Call) and _is_len(e):
-            w = self.window(e.args[0])
-            if w is not None:
-                return self.winlen(w)
-        if isinstance(e, ast.UnaryOp) and isinstance(e.op, ast.USub):
-            return -self.intval(e.operand)
-        if isinstance(e, ast.BinOp):
-            if isinstance(e.op, ast.BitAnd):
-                l, r = self.intval(e.left), self.intval(e.right)
-                lc, rc = l.const_value(), r.const_value()
-                if lc is not None and rc is not None:
-                    return Poly.const(int(lc) & int(rc))
-                for x, c in ((l, rc), (r, lc)):
-                    a = _single_atom(x)
-                    if c is not None and a is not None and a.startswith("B[") and "&" not in a:
-                        return Poly.const(0) if int(c) == 0 else Poly.atom("%s&%d" % (a, int(c)))
-                raise AnalysisError("C11.d: _uncompress masks something that is not one byte of the option with a constant: %s" % txt(e))
-            l, r = self.intval(e.left), self.intval(e.right)
-            if isinstance(e.op, ast.Add):
-                return l + r
-            if isinstance(e.op, ast.Sub):
-                return l - r
-            if isinstance(e.op, ast.Mult):
-                return l * r
-        if isinstance(e, ast.Call) and isinstance(e.func, ast.Name) and e.func.id == "int" and len(e.args) == 1 and not e.keywords:
-            return self.intval(e.args[0])
-        if not any(isinstance(x, ast.Name) and (x.id == self.P or x.id.startswith("‹")) for x in ast.walk(e)):
-            # an expression over module-level constants only (`_LIMITS[0]`, `MAX.bit_length() // 8`)
-            try:
-                v = consteval_ext(e, getattr(self.consts, "all", None) or self.consts)
-            except (norm.NormError, TypeError, ValueError):
-                v = None
-            if isinstance(v, int) and not isinstance(v, bool):
-                return Poly.const(v)
-        raise norm.NormError("not an integer over the option bytes: %s" % txt(e))
-
-    def is_intlike(self, e):
-        try:
-            self.intval(e)
-            return True
-        except norm.NormError:
-            return False
-
-    def decide(self, cond):
-        while isinstance(cond, ast.Call) and isinstance(cond.func, ast.Name) and cond.func.id == "bool" and len(cond.args) == 1 and not cond.keywords:
-            cond = cond.args[0]
-        if isinstance(cond, ast.Compare) and len(cond.ops) == 1 and isinstance(cond.ops[0], (ast.In, ast.NotIn)) and self.is_intlike(cond.left):
-            # membership of an option integer in a literal collection of integers / a range: the disjunction of the equalities
-            # (resp. the conjunction of the two bounds), each decided like any comparison
-            coll = cond.comparators[0]
-            hit = None
-            if isinstance(coll, (ast.Tuple, ast.List, ast.Set)) and all(self.is_intlike(x) for x in coll.elts):
-                hit = False
-                for x in coll.elts:
-                    if self.decide(ast.Compare(left=cond.left, ops=[ast.Eq()], comparators=[x])):
-                        hit = True
-                        break
-            elif isinstance(coll, ast.Call) and isinstance(coll.func, ast.Name) and coll.func.id == "range" and not coll.keywords and 1 <= len(coll.args) <= 2 \
-                    and all(self.is_intlike(x) for x in coll.args):
-                lo = coll.args[0] if len(coll.args) == 2 else ast.Constant(value=0)
-                hit = bool(self.decide(ast.Compare(left=cond.left, ops=[ast.GtE()], comparators=[lo]))) \
-                    and bool(self.decide(ast.Compare(left=cond.left, ops=[ast.Lt()], comparators=[coll.args[-1]])))
-            if hit is not None:
-                return hit == isinstance(cond.ops[0], ast.In)
-        nf = self.cond_nf(cond)
-        if nf is None:
-            if any(isinstance(x, ast.Name) and x.id == self.P for x in ast.walk(cond)):
-                raise AnalysisError("C11.d: _uncompress branches on a condition over the option bytes that the rule cannot interpret: %s" % txt(cond))
-            return None
-        if not isinstance(nf, bool) and nf[0] in ("eq", "ne"):
-            equal = not self._decide_nf(self._const_or(nf_lt(nf[1]))) and not self._decide_nf(self._const_or(nf_lt(-nf[1])))
-            return equal == (nf[0] == "eq")
-        return self._decide_nf(nf)
-
-    def _decide_nf(self, nf):
-        if isinstance(nf, bool):
-            return nf
-        facts = self.state["int_facts"]
-        neg = nf_ge0(nf[1])
-        if nf in facts or entails_lt0(facts, nf[1]):
-            return True
-        if neg in facts or entails_lt0(facts, neg[1]):
-            return False
-        # a comparison of one byte / masked byte with a constant that its range decides (`B & 7 > 7` is false, `B < 256` true)
-        rng = self._range_of(nf[1])
-        if rng is not None:
-            if rng[1] < 0:
-                return True
-            if rng[0] >= 0:
-                return False
-        # canonical key: the textually smaller of the fact and its negation
-        a, b = repr(nf), repr(neg)
-        key, pol = (a, True) if a <= b else (b, False)
-        v = self.choose("int:" + key) == pol
-        facts.add(nf if v else neg)
-        if nf == nf_lt(-self.LEN) or neg == nf_lt(-self.LEN):
-            self.state["empty"] = (nf == nf_lt(-self.LEN)) != v
-        return v
-
-    @staticmethod
-    def _range_of(p):
-        """(min, max) of c1 * atom + c0 for a byte atom `B[i]` (0..255) or a masked byte `B[i]&m` (0..m), else None"""
-        ats = p.atoms()
-        if len(ats) != 1:
-            return None
-        a = next(iter(ats))
-        if not a.startswith("B["):
-            return None
-        coef = p.t.get(((a, 1),))
-        if coef is None or set(p.t) - {((a, 1),), ()}:
-            return None
-        top = 255
-        if "]&" in a:
-            try:
-                top = int(a.rsplit("&", 1)[1])
-            except ValueError:
-                return None
-        c0 = p.t.get((), 0)
-        ends = (c0, coef * top + c0)
-        return (min(ends), max(ends))
-
-    def cond_nf(self, e):
-        """('lt', p) (p < 0) for a condition over option integers, a bool when constant, None when not about the option."""
-        try:
-            if isinstance(e, ast.Compare) and len(e.ops) == 1:
-                l, op, r = e.left, e.ops[0], e.comparators[0]
-                wl, wr = self.window(l), self.window(r)
-                if isinstance(op, (ast.Eq, ast.NotEq)) and (wl is not None or wr is not None):
-                    other, w = (r, wl) if wl is not None else (l, wr)
-                    if isinstance(other, ast.Constant) and other.value == b"":
-                        ln = self.winlen(w)
-                        res = nf_lt(ln - Poly.const(1))  # len == 0  <=>  len < 1
-                        return self._const_or(res if isinstance(op, ast.Eq) else nf_ge0(res[1]))
-                    return None
-                if not (self.is_intlike(l) and self.is_intlike(r)):
-                    return None
-                a, b = self.intval(l), self.intval(r)
-                if isinstance(op, ast.Lt):
-                    return self._const_or(nf_lt(a - b))
-                if isinstance(op, ast.Gt):
-                    return self._const_or(nf_lt(b - a))
-                if isinstance(op, ast.LtE):
-                    return self._const_or(nf_lt(a - b - Poly.const(1)))
-                if isinstance(op, ast.GtE):
-                    return self._const_or(nf_lt(b - a - Poly.const(1)))
-                if isinstance(op, (ast.Eq, ast.NotEq)):
-                    # only against zero, for the non-negative quantities of this domain (bytes, masked bytes, lengths)
-                    for x, y in ((a, b), (b, a)):
-                        if y.const_value() == 0:
-                            res = nf_lt(x - Poly.const(1))
-                            return self._const_or(res if isinstance(op, ast.Eq) else nf_ge0(res[1]))
-                    d = (a - b).const_value()
-                    if d is not None:
-                        return (d == 0) == isinstance(op, ast.Eq)
-                    # a == b  <=>  not a < b and not b < a: two decisions of the path (`len(head) != 1`, `len(tail) == s`)
-                    return ("eq" if isinstance(op, ast.Eq) else "ne", a - b)
-                return None
-            w = self.window(e)
-            if w is not None:  # truthiness of a window: its length is positive
-                ln = self.winlen(w)
-                return self._const_or(nf_lt(-ln))
-            if self.is_intlike(e):  # truthiness of a non-negative integer
-                return self._const_or(nf_lt(-self.intval(e)))
-        except norm.NormError:
-            return None
-        return None
-
-    @staticmethod
-    def _const_or(nf):
-        c = nf[1].const_value()
-        return (c < 0) if c is not None else nf
-
-
-# ---------------------------------------------------------------------------
-# module-level integer constants
-
-def consteval_ext(e, env=None):
-    """norm.consteval, plus the spellings module-level integer constants are also derived with: `N.bit_length()`,
-    `N.bit_count()`, max / min / abs / divmod / pow / int over constants, a constant index into a constant tuple.  Raises
-    norm.NormError like consteval."""
-    import copy
-    env = env or {}
-
-    def ints(vals):
-        return all(isinstance(v, int) and not isinstance(v, bool) for v in vals)
-
-    class T(ast.NodeTransformer):
-        def visit_Call(self, n):
-            self.generic_visit(n)
-            try:
-                if isinstance(n.func, ast.Attribute) and n.func.attr in ("bit_length", "bit_count") and not n.args and not n.keywords:
-                    v = norm.consteval(n.func.value, env)
-                    if ints([v]):
-                        return ast.copy_location(ast.Constant(value=getattr(v, n.func.attr)()), n)
-                if isinstance(n.func, ast.Name) and n.func.id in ("max", "min", "abs", "divmod", "pow", "int") and n.func.id not in env and n.args and not n.keywords:
-                    vals = [norm.consteval(a, env) for a in n.args]
-                    if len(vals) == 1 and isinstance(vals[0], (tuple, list)) and n.func.id in ("max", "min"):
-                        vals = list(vals[0])
-                    if ints(vals) and not (n.func.id == "pow" and (len(vals) != 2 or not 0 <= vals[1] < 200)):
-                        r = {"max": max, "min": min, "abs": abs, "divmod": divmod, "pow": pow, "int": int}[n.func.id](*vals)
-                        return ast.copy_location(ast.Constant(value=r), n)
-            except (norm.NormError, TypeError, ValueError, ZeroDivisionError):
-                pass
-            return n
-
-        def visit_Subscript(self, n):
-            self.generic_visit(n)
-            try:
-                if not isinstance(n.slice, ast.Slice):
-                    seq, i = norm.consteval(n.value, env), norm.consteval(n.slice, env)
-                    if isinstance(seq, (tuple, list)) and ints([i]) and -len(seq) <= i < len(seq) and ints([seq[i]]):
-                        return ast.copy_location(ast.Constant(value=seq[i]), n)
-            except norm.NormError:
-                pass
-            return n
-
-    return norm.consteval(T().visit(copy.deepcopy(e)), env)
-
-
-# ---------------------------------------------------------------------------
-# the reader and the writer of the OSCORE option run on ONE concrete value (C11.j)
-
-class ConcreteOptionReader(OptionReader):
-    """_uncompress-like code executed on one concrete option value: the same interpretation as OptionReader (windows of the
-    option, byte reads, masks, lengths), but every integer over the option is a number, so every condition over the option
-    is decided by its value and exactly one path is run.  A read outside the option is the IndexError Python raises."""
-
-    def __init__(self, fi, prog, consts, P, data):
-        super().__init__(fi, prog, consts, P)
-        self.data = bytes(data)
-        self.LEN = Poly.const(len(self.data))
-
-    def new_state(self):
-        st = super().new_state()
-        st["empty"] = len(self.data) == 0
-        return st
-
-    def intval(self, e):
-        if isinstance(e, ast.Subscript) and not isinstance(e.slice, ast.Slice):
-            w = self.window(e.value)
-            if w is not None:
-                pos = (w[0] + self.intval(e.slice)).const_value()
-                hi = w[1].const_value() if w[1] is not None else len(self.data)
-                if pos is None or hi is None or not 0 <= pos < min(hi, len(self.data)):
-                    raise AnalysisError("C11.j: a byte outside the concrete option is used as a value: %s" % txt(e)[:80])
-                return Poly.const(self.data[int(pos)])
-        return super().intval(e)
-
-    def _decide_nf(self, nf):
-        if isinstance(nf, bool):
-            return nf
-        raise AnalysisError("C11.j: a condition over a concrete option did not evaluate to a constant: %r" % (nf,))
-
-    def bytes_of(self, e):
-        """the concrete bytes an evaluated expression denotes when it is a window of the option, else None"""
-        w = self.window(e)
-        if w is None:
-            return None
-        lo = w[0].const_value()
-        hi = w[1].const_value() if w[1] is not None else len(self.data)
-        if lo is None or hi is None:
-            return None
-        return self.data[int(lo):int(hi)]
-
-
-# ---------------------------------------------------------------------------
-# the writer of the OSCORE option: the map of unprotected fields being drained
-
-FIELD_PREFIX = "F_"
-
-
-class MapModel(Runner):
-    """A map of COSE header fields that the analysed function drains / queries, modelled per key: present / absent is decided
-    once per path when the key is first queried; `U.pop(K[, d])`, `U.get(K[, d])`, `U[K]`, `K in U`, `del U[K]`, truthiness,
-    `len(U)` and comparison with `{}` are all the same queries on that state (pop and del remove the key; pop / [] / del of an
-    absent key raise KeyError, which is routed to the matching handler).  The value of a present key K is the symbol F_<K>.
-    `is_map(e)` says which evaluated expression denotes the map; `where` names the function in refusal messages."""
-
-    def __init__(self, fi, prog, keyname, where, **kw):
-        super().__init__(fi, prog=prog, **kw)
-        self.keyname = keyname  # evaluated key expression -> 'COSE_KID' | None
-        self.where = where
-
-    def new_state(self):
-        return {"had": {}, "cur": {}, "syms": {}, "nf": set(), "other": None, "epoch": 0, "lens": {}}
-
-    def is_map(self, e):
-        raise NotImplementedError
-
-    # -- queries are evaluated where they are written ------------------------------------------
-    # `K in U`, `K not in U`, `U == {}`, `bool(U)`, `not U` are *values* of the moment they are evaluated at: a flag
-    # `has_k = K in U` that is tested again after `U.pop(K)` still says what it said when it was computed.  The generic
-    # runner keeps an undecided condition as an expression and decides it when it is tested; for a query on the mutable map
-    # that would read the state of the later moment.  So every boolean query on the map is decided (the path forks) as soon
-    # as it is evaluated and replaced by its truth value; the decision is recorded in path.conds like any tested
-    # condition.  `len(U)` stays symbolic, stamped with the state it was taken in: testing it after a removal is refused.
-    def _is_bool_query(self, e):
-        if isinstance(e, ast.Compare) and len(e.ops) == 1 and (self._is_U(e.left) or self._is_U(e.comparators[0])):
-            return True
-        if isinstance(e, ast.UnaryOp) and isinstance(e.op, ast.Not) and self._is_U(e.operand):
-            return True
-        if isinstance(e, ast.Call) and isinstance(e.func, ast.Name) and e.func.id == "bool" and len(e.args) == 1 and not e.keywords and self._is_U(e.args[0]):
-            return True
-        return False
-
-    def ev(self, e, bound=frozenset()):
-        out = super().ev(e, bound)
-        if bound or out is None or not isinstance(out, (ast.Compare, ast.UnaryOp, ast.Call)):
-            return out
-        if _is_len(out) and self._is_U(out.args[0]):
-            self.state["lens"][id(out)] = (self.state["epoch"], out)
-            return out
-        if self._is_bool_query(out):
-            neg = isinstance(out, ast.UnaryOp)
-            v = self.decide_map(out.operand if neg else (out.args[0] if isinstance(out, ast.Call) else out))
-            if isinstance(v, bool):
-                v = (not v) if neg else v
-                self.path.conds.append((out, v, self.nid))
-                return ast.copy_location(ast.Constant(value=v), out)
-        return out
-
-    def _removed(self, k):
-        self.state["cur"][k] = False
-        self.state["epoch"] += 1
-
-    def _check_len_epoch(self, e):
-        for x in ast.walk(e):
-            if _is_len(x) and self._is_U(x.args[0]):
-                rec = self.state["lens"].get(id(x))
-                if rec is not None and rec[1] is x and rec[0] != self.state["epoch"]:
-                    raise AnalysisError("%s tests the size of the map of unprotected fields as it was before fields were removed from it: %s" % (self.where, txt(e)[:80]))
-
-    def _is_U(self, e):
-        return self.is_map(e)
-
-    def _key(self, e, what):
-        k = self.keyname(e)
-        if k is None:
-            raise AnalysisError("%s accesses the map of unprotected fields with a key that is not a COSE_* constant (%s)" % (self.where, what))
-        return k
-
-    def has(self, k):
-        s = self.state
-        if k not in s["cur"]:
-            v = self.choose("has:" + k)
-            s["had"][k] = s["cur"][k] = v
-        return s["cur"][k]
-
-    def field(self, k):
-        s = self.state["syms"]
-        if k not in s:
-            s[k] = ast.Name(id=FIELD_PREFIX + k, ctx=ast.Load())
-        return s[k]
-
-    def nonempty(self):
-        s = self.state
-        if any(s["cur"].values()):
-            return True
-        if s["other"] is None:
-            s["other"] = self.choose("has:<other keys>")
-        return s["other"]
-
-    def eval_hook(self, e):
-        if isinstance(e, ast.Call) and isinstance(e.func, ast.Attribute) and self._is_U(e.func.value):
-            m = e.func.attr
-            if m in ("pop", "get") and 1 <= len(e.args) <= 2 and not e.keywords:
-                k = self._key(e.args[0], txt(e))
-                if self.has(k):
-                    if m == "pop":
-                        self._removed(k)
-                    return self.field(k)
-                if len(e.args) == 2:
-                    return e.args[1]
-                if m == "get":
-                    return ast.Constant(value=None)
-                raise PyRaise("KeyError")
-            raise AnalysisError("%s uses the map of unprotected fields in a way the rule cannot interpret: %s" % (self.where, txt(e)))
-        if isinstance(e, ast.Subscript) and self._is_U(e.value):
-            k = self._key(e.slice, txt(e))
-            if self.has(k):
-                return self.field(k)
-            raise PyRaise("KeyError")
-        if isinstance(e, ast.Call) and any(self._is_U(a) for a in list(e.args) + [kw.value for kw in e.keywords]):
-            if _is_len(e) or (isinstance(e.func, ast.Name) and e.func.id == "bool") or _is_log(e):
-                return None
-            raise AnalysisError("%s hands the map of unprotected fields to other code: %s" % (self.where, txt(e)))
-        return None
-
-    def on_delete(self, t):
-        if isinstance(t, ast.Subscript) and self._is_U(self.ev(t.value)):
-            k = self._key(self.ev(t.slice), "del")
-            if not self.has(k):
-                raise PyRaise("KeyError")
-            self._removed(k)
-            return True
-        return False
-
-    def _bind(self, tgt, v, stmt):
-        if isinstance(tgt, ast.Subscript) and self._is_U(self.ev(tgt.value)):
-            raise AnalysisError("%s stores into the map of unprotected fields" % self.where)
-        return super()._bind(tgt, v, stmt)
-
-    def decide_map(self, e):
-        """bool for a condition that is a query on the map, else None"""
-        self._check_len_epoch(e)
-        if isinstance(e, ast.Compare) and len(e.ops) == 1 and isinstance(e.ops[0], (ast.In, ast.NotIn)) and self._is_U(e.comparators[0]):
-            v = self.has(self._key(e.left, txt(e)))
-            return v == isinstance(e.ops[0], ast.In)
-        if self._is_U(e):
-            return self.nonempty()
-        if isinstance(e, ast.Compare) and len(e.ops) == 1 and any(self._is_U(x) for x in (e.left, e.comparators[0])):
-            other = e.comparators[0] if self._is_U(e.left) else e.left
-            if isinstance(other, ast.Dict) and not other.keys and isinstance(e.ops[0], (ast.Eq, ast.NotEq)):
-                return self.nonempty() == isinstance(e.ops[0], ast.NotEq)
-            raise AnalysisError("%s compares the map of unprotected fields in a way the rule cannot interpret: %s" % (self.where, txt(e)))
-        if isinstance(e, ast.Compare) and len(e.ops) == 1 and isinstance(e.ops[0], (ast.Is, ast.IsNot, ast.Eq, ast.NotEq)):
-            for x, y in ((e.left, e.comparators[0]), (e.comparators[0], e.left)):
-                if isinstance(x, ast.Name) and x.id.startswith(FIELD_PREFIX) and isinstance(y, ast.Constant) and y.value is None:
-                    # A present field is never None: protect() stores byte strings, _uncompress stores slices of the option or
-                    # the PRESENT_BUT_NO_VALUE_YET sentinel (C11.d decides exactly that).  This is what makes
-                    # `pop(K, None) is None` / `get(K) is None` the same test as `K not in map`.
-                    return isinstance(e.ops[0], (ast.IsNot, ast.NotEq))
-        tv = truth_view(e, True)
-        if tv is not None and self._is_U(tv[0]):
-            return self.nonempty() == tv[1]
-        if isinstance(e, ast.Compare) and any(_is_len(x) and self._is_U(x.args[0]) for x in ast.walk(e)):
-            raise AnalysisError("%s compares len(<map of unprotected fields>) in a way the rule cannot interpret: %s" % (self.where, txt(e)))
-        return None
-
-    def decide(self, cond):
-        return self.decide_map(cond)
-
-
-class OptionWriter(MapModel):
-    """Interprets _compress-like code: the MapModel for its map parameter U plus the arithmetic of the flag byte."""
-
-    def __init__(self, fi, prog, consts, U, keyname):
-        super().__init__(fi, prog, keyname, "C11.d: _compress", fork_values=True)
-        self.consts = consts
-        self.U = U
-
-    def is_map(self, e):
-        return isinstance(e, ast.Name) and e.id == self.U
-
-    def _bind(self, tgt, v, stmt):
-        if isinstance(tgt, ast.Name) and tgt.id == self.U:
-            raise AnalysisError("C11.d: _compress rebinds the unprotected map")
-        return super()._bind(tgt, v, stmt)
-
-    # -- flag byte values: (base polynomial, or-ed constant bits)
-    def flagval(self, e):
-        if isinstance(e, ast.Constant) and isinstance(e.value, int) and not isinstance(e.value, bool):
-            return (Poly.const(0), e.value)
-        if isinstance(e, ast.Name) and e.id in self.consts:
-            return (Poly.const(0), self.consts[e.id])
-        if _is_len(e):
-            a = e.args[0]
-            if isinstance(a, ast.Constant) and isinstance(a.value, bytes):
-                return (Poly.const(0), len(a.value))
-            if isinstance(a, ast.Name) and a.id.startswith(FIELD_PREFIX):
-                return (Poly.atom("len(%s)" % a.id), 0)
-            return None
-        if isinstance(e, ast.BinOp) and isinstance(e.op, (ast.BitOr, ast.Add)):
-            l, r = self.flagval(e.left), self.flagval(e.right)
-            if l is None or r is None:
-                return None
-            if l[0].const_value() != 0 and r[0].const_value() != 0:
-                return None
-            base = l[0] + r[0]
-            if isinstance(e.op, ast.Add) and (l[1] & r[1] or (base.const_value() != 0 and (l[1] | r[1]) & 0b111)):
-                # `+` is `|` only for disjoint bits; the non-constant part is the partial IV length, which is required to be
-                # at most COMPRESSION_BITS_N on every returning path and so lives in the low three bits
-                return None
-            return (base, l[1] | r[1])
-        return None
-
-    def decide(self, cond):
-        e = cond
-        m = self.decide_map(e)
-        if m is not None:
-            return m
-        tv = truth_view(e, True)
-        # the flag byte (or any integer built like it): non-zero as soon as a constant bit is or-ed in
-        sub = None
-        if self.flagval(e) is not None:
-            sub = (self.flagval(e), True)
-        elif tv is not None:
-            fv = self.flagval(tv[0])
-            if fv is None and isinstance(tv[0], ast.Name) and tv[0].id.startswith(FIELD_PREFIX):
-                fv = (Poly.atom("len(%s)" % tv[0].id), 0)  # a byte string is true when its length is non-zero
-            if fv is not None:
-                sub = (fv, tv[1])
-        if sub is not None:
-            fv, pol = sub
-            if fv[1] != 0:
-                return pol
-            c = fv[0].const_value()
-            if c is not None:
-                return (c != 0) == pol
-            v = self.choose("nz:%r" % (fv[0],))
-            self.state["nf"].add(nf_lt(-fv[0]) if v else nf_lt(fv[0] - Poly.const(1)))
-            return v == pol
-        # integer comparisons (length limits)
-        if isinstance(e, ast.Compare) and len(e.ops) == 1 and isinstance(e.ops[0], (ast.Lt, ast.Gt, ast.LtE, ast.GtE)):
-            N = norm.Normalizer(penv={k: Poly.const(v) for k, v in self.consts.items()})
-            try:
-                nf = N.cmp(e)
-            except norm.NormError:
-                return None
-            c = nf[1].const_value()
-            if c is not None:
-                return c < 0
-            neg = N.negate(nf)
-            a, b = repr(nf), repr(neg)
-            key, pol = (a, True) if a <= b else (b, False)
-            v = self.choose("int:" + key) == pol
-            self.state["nf"].add(nf if v else neg)
-            return v
-        return None
-
-
-class ConcreteOptionWriter(OptionWriter):
-    """_compress-like code executed on one concrete map of fields {COSE key name: bytes}: presence is what the map says, a
-    present field is its byte string (so lengths are numbers and every limit test is decided by its value); the first
-    parameter (the protected header map, always {} in protect()) is the empty map."""
-
-    def __init__(self, fi, prog, consts, U, keyname, fields, empty_params=()):
-        super().__init__(fi, prog, consts, U, keyname)
-        self.fields = dict(fields)
-        self.empty_params = tuple(empty_params)
-
-    def initial_env(self):
-        return {n: ast.Dict(keys=[], values=[]) for n in self.empty_params}
-
-    def new_state(self):
-        st = super().new_state()
-        st["other"] = False
-        return st
-
-    def has(self, k):
-        s = self.state
-        if k not in s["cur"]:
-            s["had"][k] = s["cur"][k] = k in self.fields
-        return s["cur"][k]
-
-    def field(self, k):
-        s = self.state["syms"]
-        if k not in s:
-            s[k] = ast.Constant(value=self.fields[k])
-        return s[k]
-
-    def concrete_bytes(self, e):
-        """the byte string an evaluated bytes expression denotes, None when a part is not a constant"""
-        parts = byte_parts(e)
-        if parts is None:
-            return None
-        out = b""
-        for kind, x in parts:
-            if kind == "lit":
-                out += x
-            elif kind == "byte":
-                fv = self.flagval(x)
-                c = fv[0].const_value() if fv is not None else None
-                if c is None or c != int(c) or not 0 <= (int(c) | fv[1]) < 256:
-                    return None
-                out += bytes([int(c) | fv[1]])
-            else:
-                return None
-        return out
-
-
-def byte_parts(e):
-    """Decompose an evaluated bytes expression into parts: ('byte', expr) for bytes([x]) / bytes((x,)) / x.to_bytes(1, ..),
-    ('field', name) for F_<K>, ('lit', b'..'); b'' vanishes; `+`, b''.join([...]) and bytes([a, b]) are concatenations.
-    None when a part is not understood."""
-    if isinstance(e, ast.BinOp) and isinstance(e.op, ast.Add):
-        l, r = byte_parts(e.left), byte_parts(e.right)
-        return None if l is None or r is None else l + r
-    if isinstance(e, ast.Constant) and isinstance(e.value, bytes):
-        return [] if not e.value else [("lit", e.value)]
-    if isinstance(e, ast.Name) and e.id.startswith(FIELD_PREFIX):
-        return [("field", e.id[len(FIELD_PREFIX):])]
-    if isinstance(e, ast.Call) and isinstance(e.func, ast.Name) and e.func.id == "bytes" and not e.keywords:
-        if not e.args:
-            return []
-        if len(e.args) == 1 and isinstance(e.args[0], (ast.List, ast.Tuple)) and not any(isinstance(x, ast.Starred) for x in e.args[0].elts):
-            return [("byte", x) for x in e.args[0].elts]
-        if len(e.args) == 1 and isinstance(e.args[0], ast.Name) and e.args[0].id.startswith(FIELD_PREFIX):
-            return [("field", e.args[0].id[len(FIELD_PREFIX):])]
-        return None
-    if isinstance(e, ast.Call) and isinstance(e.func, ast.Attribute) and e.func.attr == "to_bytes" and e.args \
-            and isinstance(e.args[0], ast.Constant) and e.args[0].value == 1:
-        return [("byte", e.func.value)]
-    if isinstance(e, ast.Call) and isinstance(e.func, ast.Attribute) and e.func.attr == "join" and isinstance(e.func.value, ast.Constant) and e.func.value.value == b"" \
-            and len(e.args) == 1 and isinstance(e.args[0], (ast.List, ast.Tuple)) and not any(isinstance(x, ast.Starred) for x in e.args[0].elts):
-        out = []
-        for x in e.args[0].elts:
-            p = byte_parts(x)
-            if p is None:
-                return None
-            out += p
-        return out
-    return None
-
-
-# ---------------------------------------------------------------------------
-# values answered from state (C11.k): keyed reads of containers that outlive the activation
-
-STORE_READS = ("get", "pop", "setdefault", "__getitem__")
-
-
-class StateRunner(Runner):
-    """The path runner for functions that may answer from a store that outlives the activation (`C[k]`, C an attribute chain
-    rooted in self / cls or a module-level name).  Such a read can miss: where a KeyError would be caught inside the function
-    (`try: return C[k]` / `except KeyError:`) the read is a decision of the path -- hit: the value is the read itself; miss:
-    KeyError, routed to the handler -- so both the answering and the computing path are enumerated, like they are for the
-    `k in C` / `C.get(k)` spellings."""
-
-    def _is_state(self, e):
-        c = state_chain(e)
-        if c is None:
-            return False
-        if c.startswith("type("):
-            return True
-        root = c.split(".")[0]
-        a = self.fi.node.args
-        pnames = [x.arg for x in a.posonlyargs + a.args + a.kwonlyargs]
-        if pnames and root == pnames[0] and "." in c and self.fi.cls is not None:
-            return True
-        return root not in pnames and root not in self.env and "." not in c and not root.startswith("‹")
-
-    def decide(self, cond):
-        # nothing is in a container that was created empty on this very path
-        if isinstance(cond, ast.Compare) and len(cond.ops) == 1 and isinstance(cond.ops[0], (ast.In, ast.NotIn)) and isinstance(cond.comparators[0], ast.Dict) \
-                and not cond.comparators[0].keys:
-            return isinstance(cond.ops[0], ast.NotIn)
-        return None
-
-    def eval_hook(self, e):
-        if isinstance(e, ast.Subscript) and not isinstance(e.slice, ast.Slice) and self._is_state(e.value):
-            tgt = self._exc_target(self.nid, "KeyError")
-            if tgt != self.cfg.rexit and self.cfg.nodes[tgt].kind == "handler":
-                if not self.choose("hit:" + txt(e)[:120]):
-                    raise PyRaise("KeyError")
-        return None
-
-
-def state_chain(e):
-    """chain(e), also for an attribute chain on the class of an object: `type(x).a.b` -> 'type(x).a.b', `x.__class__.a` -> 'type(x).a'"""
-    c = chain(e)
-    if c is not None:
-        parts = c.split(".")
-        if len(parts) >= 3 and parts[1] == "__class__":
-            return "type(%s).%s" % (parts[0], ".".join(parts[2:]))
-        return c
-    parts = []
-    while isinstance(e, ast.Attribute):
-        parts.append(e.attr)
-        e = e.value
-    if parts and isinstance(e, ast.Call) and isinstance(e.func, ast.Name) and e.func.id == "type" and len(e.args) == 1 and not e.keywords and isinstance(e.args[0], ast.Name):
-        return "type(%s).%s" % (e.args[0].id, ".".join(reversed(parts)))
-    return None
-
-
-def store_read(v):
-    """(container, key, call-or-subscript) when the evaluated value is read out of a keyed container (`C[k]`, `C.get(k[, d])`,
-    `C.pop(k[, d])`, `C.setdefault(k, d)`), possibly behind constant indexing / attribute reads of the entry; else None."""
-    while True:
-        if isinstance(v, ast.Subscript) and not isinstance(v.slice, ast.Slice):
-            if state_chain(v.value) is not None and not (isinstance(v.slice, ast.Constant) and isinstance(v.slice.value, int)):
-                return v.value, v.slice, v
-            v = v.value  # a constant index: a component of the entry
-        elif isinstance(v, ast.Attribute):
-            v = v.value
-        elif isinstance(v, ast.Call) and isinstance(v.func, ast.Attribute) and v.func.attr in STORE_READS and v.args and state_chain(v.func.value) is not None:
-            return v.func.value, v.args[0], v
-        else:
-            return None
-
-
-def input_atoms(e, selfname, params):
-    """The inputs an evaluated expression is computed from, as far as they are named: parameters of the function and
-    first-level attributes of self (`self.x...`, hasattr / getattr(self, 'x')); 'self' itself when the object is used whole
-    (as an argument, `id(self)`).  Calls through self (`self.m(..)`) are returned separately: [(method name, call)]."""
-    atoms, calls = set(), []
-
-    def visit(n, is_func=False):
-        if isinstance(n, ast.Call):
-            if _is_log(n):
-                return
-            f = n.func
-            if isinstance(f, ast.Attribute) and isinstance(f.value, ast.Name) and f.value.id == selfname:
-                calls.append((f.attr, n))
-            elif isinstance(f, ast.Name) and f.id in ("hasattr", "getattr") and len(n.args) >= 2 and isinstance(n.args[0], ast.Name) and n.args[0].id == selfname \
-                    and isinstance(n.args[1], ast.Constant) and isinstance(n.args[1].value, str):
-                atoms.add("%s.%s" % (selfname, n.args[1].value))
-                for a in n.args[2:]:
-                    visit(a)
-                return
-            elif isinstance(f, ast.Name) and f.id == "isinstance":
-                return
-            else:
-                visit(f, True)
-            for a in list(n.args) + [k.value for k in n.keywords]:
-                visit(a)
-            return
-        if isinstance(n, ast.Attribute):
-            c = chain(n)
-            if c is not None:
-                parts = c.split(".")
-                if parts[0] == selfname:
-                    atoms.add("%s.%s" % (selfname, parts[1]))
-                elif parts[0] in params:
-                    atoms.add(parts[0])
-                return
-            visit(n.value)
-            return
-        if isinstance(n, ast.Name):
-            if n.id == selfname:
-                atoms.add(selfname)
-            elif n.id in params:
-                atoms.add(n.id)
-            return
-        for c in ast.iter_child_nodes(n):
-            if isinstance(c, (ast.expr, ast.comprehension, ast.keyword)):
-                visit(c)
-
-    visit(e)
-    return atoms, calls
 
 
 # ---------------------------------------------------------------------------
@@ -2296,10 +1452,957 @@ class FlowRunner(Runner):
         if p.end == "fall":
             return ast.copy_location(ast.Constant(value=None), call)
         if p.end == "raise":
-            raise PyRaise(p.exc)
+            # (an explicit `raise` of the helper stays the end node of the caller's path: which activation raised is immaterial)
+            raise PyRaise(p.exc, p.endnode if isinstance(p.endnode, ast.Raise) else None)
         raise AnalysisError("C11 flow runner: helper %s does not end normally on a path (%s)" % (clo.fi.short, p.end))
 
     def _opaque(self, clo, why):
         if self._must_run(clo.node):
             raise AnalysisError("C11 flow runner: cannot execute helper %s in %s: %s" % (getattr(clo.node, "name", "<lambda>"), self.fi.short, why))
         return None
+
+
+# ---------------------------------------------------------------------------
+# the reader of the OSCORE option: windows of the option bytes
+
+REWRITE_METHODS = ("lstrip", "rstrip", "strip", "removeprefix", "removesuffix", "replace", "lower", "upper")
+
+
+class OptionReader(FlowRunner):
+    """Interprets _uncompress-like code: the first parameter P is a byte string; slices of it are *windows*
+    (lo, hi) of P, indexing yields the byte atoms `B[i]`, `x & MASK` of a byte the atoms `B[i]&m`, lengths of windows
+    are `len(P) - lo`.  All conditions over these become integer normal forms; everything else stays uninterpreted.
+
+    Window arithmetic relies on Python's slice semantics: P[a:][x:] == P[a+x:] for non-negative a, x (saturating on both
+    sides), P[a:][x:y] == P[a+x:a+y] when a+y <= len(P) (the bound every stored field is required to have by C11.h), and
+    len(P[a:]) == len(P) - a when a <= len(P) (established by the same bounds checks; for a = 1 by the non-empty test).
+
+    Local callables of the function -- a nested def (also one that advances a cursor through `nonlocal`), a lambda, a
+    functools.partial of either -- are *executed* where they are called (FlowRunner: one activation per call with Python's
+    binding rules, decisions, integer facts and byte reads shared with the caller's path), so a field that is cut by a local
+    `take(n)` helper is the same window, behind the same decided bounds check, as one cut in line.  Nothing else is executed:
+    methods and module-level functions are the engine's business (helper expansion) and stay opaque calls here."""
+
+    def __init__(self, fi, prog, consts, P=None, **kw):
+        top = kw.get("top")
+        if top is not None:
+            # an activation of a local helper (constructed by FlowRunner._call: the third positional argument is the world)
+            FlowRunner.__init__(self, fi, prog, consts, **kw)
+            self._share(top)
+            return
+        Runner.__init__(self, fi, prog=prog, fork_values=True)
+        world = getattr(prog, "_c11_rawworld", None)
+        if world is None:
+            world = RawWorld(prog)
+            setattr(prog, "_c11_rawworld", world)
+        self.world, self.top, self.parent_env, self.bound = world, self, None, None
+        self.interesting = lambda fnode: True  # a local helper that cannot be executed is a refusal, never an opaque value
+        self.selfname = self.topcls = None
+        self.ncalls = self.depth = 0
+        self._dig_memo, self._dig_table, self.executed = {}, {}, set()
+        self.consts = consts
+        self.P = P
+        self.LEN = Poly.atom("len(P)")
+
+    def _share(self, top):
+        self.consts, self.P, self.LEN = top.consts, top.P, top.LEN
+
+    def _resolve(self, call):
+        # local callables only (values of the running function: def / lambda / partial)
+        return closure_of(call.func)
+
+    def new_state(self):
+        if self.top is not self:
+            return self.top.state  # one state per path, shared by all activations
+        return {"int_facts": set(), "empty": None, "reads": []}
+
+    def eval_hook(self, e):
+        if isinstance(e, ast.Call) and (closure_of(e.func) is not None or self._is_partial(e)):
+            return FlowRunner.eval_hook(self, e)
+        return None
+
+    def _bind(self, tgt, v, stmt):
+        if isinstance(tgt, (ast.Tuple, ast.List)) and not any(isinstance(x, ast.Starred) for x in tgt.elts) and not isinstance(v, (ast.Tuple, ast.List)):
+            try:
+                w = self.window(v)
+            except AnalysisError:
+                w = None
+            if w is not None:
+                # `(s,) = W` / `a, b = W` on a window of the option: Python raises ValueError unless len(W) is exactly the number
+                # of targets -- a decision of the path like any length test; then the targets are the bytes W[0], W[1], ...
+                d = self.winlen(w) - Poly.const(len(tgt.elts))
+                if self._decide_nf(self._const_or(nf_lt(d))) or self._decide_nf(self._const_or(nf_lt(-d))):
+                    raise PyRaise("ValueError")
+        FlowRunner._bind(self, tgt, v, stmt)
+
+    # -- single bytes read from the option
+    def ev(self, e, bound=frozenset()):
+        out = super().ev(e, bound)
+        if isinstance(e, ast.Subscript) and not bound and isinstance(out, ast.Subscript) and not isinstance(out.slice, ast.Slice):
+            self._byte_read(e, out)
+        return out
+
+    def _ge0(self, want):
+        c = want.const_value()
+        return c >= 0 if c is not None else entails_ge0(self.state["int_facts"], want)
+
+    def _byte_read(self, site, out):
+        """`W[i]` on a window W = P[lo:hi] of the option reads the byte P[lo+i]; it raises IndexError unless lo + i < len(P)
+        (and, for a bounded window, lo + i < hi).  The read is a *decision* of the path like any test: where the integer facts
+        known when the read is evaluated already imply it (a check that follows the read does not count) nothing happens; where
+        they refute it the path continues as an IndexError; otherwise both outcomes are explored, the in-bounds one with the fact
+        added.  Whichever local the window travelled through and whichever spelling established the fact (`not W`,
+        `len(W) < 1`, `len(P) < 2 + n`, a merged check, `try: W[0] except IndexError`) is immaterial."""
+        try:
+            w = self.window(out.value)
+        except AnalysisError:
+            return
+        if w is None:
+            return
+        i = self.intval(out.slice)
+        # bytes, masked bytes and lengths are the atoms of this domain: all non-negative, so a polynomial without a negative
+        # coefficient is non-negative
+        if not (all(v >= 0 for v in i.t.values()) or self._ge0(i)):
+            raise AnalysisError("C11: _uncompress indexes the option with something that may be negative: %s" % txt(out)[:80])
+        pos = w[0] + i
+        known = sorted(map(repr, self.state["int_facts"])) or "nothing"
+        for bound in [self.LEN] + ([w[1]] if w[1] is not None else []):
+            if not self._decide_nf(self._const_or(nf_lt(pos - bound))):
+                self.state["reads"].append((site, False, "byte %r of the option is read where only this is known about its length: %s" % (pos, known)))
+                raise PyRaise("IndexError")
+        self.state["reads"].append((site, True, None))
+
+    # -- windows and integers
+    def window(self, e):
+        """(lo, hi|None) for an evaluated expression denoting a slice of P, else None."""
+        if isinstance(e, ast.Name) and e.id == self.P:
+            return (Poly.const(0), None)
+        if isinstance(e, ast.Constant) and e.value == b"":
+            # the empty byte string: equal to every window of P on a path on which P is known to be empty
+            if self.state["empty"] is True:
+                return (Poly.const(0), Poly.const(0))
+            return None
+        if isinstance(e, ast.Subscript) and isinstance(e.slice, ast.Slice):
+            w = self.window(e.value)
+            if w is None:
+                return None
+            a, b = w
+            sl = e.slice
+            if sl.step is not None:
+                raise AnalysisError("C11.d: _uncompress slices the option with a step")
+            lo = self.intval(sl.lower) if sl.lower is not None else Poly.const(0)
+            hi = self.intval(sl.upper) if sl.upper is not None else None
+            for x in (lo, hi):
+                if x is not None and x.const_value() is not None and x.const_value() < 0:
+                    raise AnalysisError("C11.d: _uncompress slices the option from its end: %s" % txt(e))
+            if hi is None:
+                return (a + lo, b)
+            if b is not None:
+                raise AnalysisError("C11.d: _uncompress cuts a field out of an already bounded slice: %s" % txt(e))
+            return (a + lo, a + hi)
+        return None
+
+    def rewrite_of(self, e):
+        """(method, window expression, constant arguments) when the evaluated expression is a content-dependent rewrite of a
+        slice of the option by a bytes method whose result is, for some contents, not the slice itself: the strip family and
+        removeprefix / removesuffix with an absent or non-empty constant argument, replace / lower / upper.  (With an empty
+        argument the strip family is the identity; that spelling is left to the caller's refusal.)"""
+        if not (isinstance(e, ast.Call) and isinstance(e.func, ast.Attribute) and e.func.attr in REWRITE_METHODS and not e.keywords):
+            return None
+        if not all(isinstance(a, ast.Constant) and isinstance(a.value, (bytes, type(None))) for a in e.args):
+            return None
+        args = tuple(a.value for a in e.args)
+        m = e.func.attr
+        if m in ("lstrip", "rstrip", "strip") and not (len(args) == 0 or (len(args) == 1 and args[0] != b"")):
+            return None
+        if m in ("removeprefix", "removesuffix") and not (len(args) == 1 and args[0]):
+            return None
+        if m == "replace" and not (len(args) == 2 and args[0] and args[1] is not None and args[0] != args[1]):
+            return None
+        if m in ("lower", "upper") and args:
+            return None
+        base = e.func.value
+        try:
+            inner = self.window(base) is not None or self.rewrite_of(base) is not None
+        except AnalysisError:
+            inner = False
+        return (m, base, args) if inner else None
+
+    def winlen(self, w):
+        """Length of the window P[lo:hi] (lo <= len(P) by the checks that precede every cut): len(P) - lo for an open one; for a
+        bounded one hi - lo where the option is known to reach hi, len(P) - lo where it is known not to, and a decision of the
+        path otherwise (`s = tail[:1]` followed by `if not s:` is a length check like any other)."""
+        if w[1] is None:
+            return self.LEN - w[0]
+        if (w[1] - w[0]).const_value() == 0:
+            return Poly.const(0)
+        return (w[1] - w[0]) if self._decide_nf(self._const_or(nf_ge0(self.LEN - w[1]))) else (self.LEN - w[0])
+
+    def intval(self, e):
+        if isinstance(e, ast.Constant) and isinstance(e.value, int) and not isinstance(e.value, bool):
+            return Poly.const(e.value)
+        if isinstance(e, ast.Name) and e.id in self.consts:
+            return Poly.const(self.consts[e.id])
+        if isinstance(e, ast.Attribute) and chain(e) and chain(e).split(".")[-1] in self.consts and chain(e).split(".")[0] != self.P:
+            return Poly.const(self.consts[chain(e).split(".")[-1]])
+        if isinstance(e, ast.Subscript) and not isinstance(e.slice, ast.Slice):
+            w = self.window(e.value)
+            if w is not None:
+                i = self.intval(e.slice)
+                if i.const_value() is not None and i.const_value() < 0:
+                    raise AnalysisError("C11.d: _uncompress indexes the option from its end: %s" % txt(e))
+                if w[1] is not None and w[1] == w[0]:
+                    raise AnalysisError("C11.d: _uncompress reads a byte of an empty slice: %s" % txt(e))
+                return Poly.atom("B[%r]" % (w[0] + i,))
+        if isinstance(e, ast.Call) and _is_len(e):
+            w = self.window(e.args[0])
+            if w is not None:
+                return self.winlen(w)
+        if isinstance(e, ast.UnaryOp) and isinstance(e.op, ast.USub):
+            return -self.intval(e.operand)
+        if isinstance(e, ast.BinOp):
+            if isinstance(e.op, ast.BitAnd):
+                l, r = self.intval(e.left), self.intval(e.right)
+                lc, rc = l.const_value(), r.const_value()
+                if lc is not None and rc is not None:
+                    return Poly.const(int(lc) & int(rc))
+                for x, c in ((l, rc), (r, lc)):
+                    a = _single_atom(x)
+                    if c is not None and a is not None and a.startswith("B[") and "&" not in a:
+                        return Poly.const(0) if int(c) == 0 else Poly.atom("%s&%d" % (a, int(c)))
+                raise AnalysisError("C11.d: _uncompress masks something that is not one byte of the option with a constant: %s" % txt(e))
+            l, r = self.intval(e.left), self.intval(e.right)
+            if isinstance(e.op, ast.Add):
+                return l + r
+            if isinstance(e.op, ast.Sub):
+                return l - r
+            if isinstance(e.op, ast.Mult):
+                return l * r
+        if isinstance(e, ast.Call) and isinstance(e.func, ast.Name) and e.func.id == "int" and len(e.args) == 1 and not e.keywords:
+            return self.intval(e.args[0])
+        if not any(isinstance(x, ast.Name) and (x.id == self.P or x.id.startswith("‹")) for x in ast.walk(e)):
+            # an expression over module-level constants only (`_LIMITS[0]`, `MAX.bit_length() // 8`)
+            try:
+                v = consteval_ext(e, getattr(self.consts, "all", None) or self.consts)
+            except (norm.NormError, TypeError, ValueError):
+                v = None
+            if isinstance(v, int) and not isinstance(v, bool):
+                return Poly.const(v)
+        raise norm.NormError("not an integer over the option bytes: %s" % txt(e))
+
+    def is_intlike(self, e):
+        try:
+            self.intval(e)
+            return True
+        except norm.NormError:
+            return False
+
+    def decide(self, cond):
+        while isinstance(cond, ast.Call) and isinstance(cond.func, ast.Name) and cond.func.id == "bool" and len(cond.args) == 1 and not cond.keywords:
+            cond = cond.args[0]
+        if isinstance(cond, ast.Compare) and len(cond.ops) == 1 and isinstance(cond.ops[0], (ast.In, ast.NotIn)) and self.is_intlike(cond.left):
+            # membership of an option integer in a literal collection of integers / a range: the disjunction of the equalities
+            # (resp. the conjunction of the two bounds), each decided like any comparison
+            coll = cond.comparators[0]
+            hit = None
+            if isinstance(coll, (ast.Tuple, ast.List, ast.Set)) and all(self.is_intlike(x) for x in coll.elts):
+                hit = False
+                for x in coll.elts:
+                    if self.decide(ast.Compare(left=cond.left, ops=[ast.Eq()], comparators=[x])):
+                        hit = True
+                        break
+            elif isinstance(coll, ast.Call) and isinstance(coll.func, ast.Name) and coll.func.id == "range" and not coll.keywords and 1 <= len(coll.args) <= 2 \
+                    and all(self.is_intlike(x) for x in coll.args):
+                lo = coll.args[0] if len(coll.args) == 2 else ast.Constant(value=0)
+                hit = bool(self.decide(ast.Compare(left=cond.left, ops=[ast.GtE()], comparators=[lo]))) \
+                    and bool(self.decide(ast.Compare(left=cond.left, ops=[ast.Lt()], comparators=[coll.args[-1]])))
+            if hit is not None:
+                return hit == isinstance(cond.ops[0], ast.In)
+        nf = self.cond_nf(cond)
+        if nf is None:
+            if self.rewrite_of(cond) is not None:
+                # truthiness of a content-dependent rewrite of a slice of the option (`W.lstrip(b"\0")`): it depends on the
+                # *values* of the bytes, which this domain does not model -- an uninterpreted decision of the path (both outcomes
+                # are explored; neither says anything about lengths or flag bits, so no interpreted decision depends on it)
+                return None
+            if any(isinstance(x, ast.Name) and x.id == self.P for x in ast.walk(cond)):
+                raise AnalysisError("C11.d: _uncompress branches on a condition over the option bytes that the rule cannot interpret: %s" % txt(cond))
+            return None
+        if not isinstance(nf, bool) and nf[0] in ("eq", "ne"):
+            equal = not self._decide_nf(self._const_or(nf_lt(nf[1]))) and not self._decide_nf(self._const_or(nf_lt(-nf[1])))
+            return equal == (nf[0] == "eq")
+        return self._decide_nf(nf)
+
+    def _decide_nf(self, nf):
+        if isinstance(nf, bool):
+            return nf
+        facts = self.state["int_facts"]
+        neg = nf_ge0(nf[1])
+        if nf in facts or entails_lt0(facts, nf[1]):
+            return True
+        if neg in facts or entails_lt0(facts, neg[1]):
+            return False
+        # a comparison of one byte / masked byte with a constant that its range decides (`B & 7 > 7` is false, `B < 256` true)
+        rng = self._range_of(nf[1])
+        if rng is not None:
+            if rng[1] < 0:
+                return True
+            if rng[0] >= 0:
+                return False
+        # canonical key: the textually smaller of the fact and its negation
+        a, b = repr(nf), repr(neg)
+        key, pol = (a, True) if a <= b else (b, False)
+        v = self.choose("int:" + key) == pol
+        facts.add(nf if v else neg)
+        if nf == nf_lt(-self.LEN) or neg == nf_lt(-self.LEN):
+            self.state["empty"] = (nf == nf_lt(-self.LEN)) != v
+        return v
+
+    @staticmethod
+    def _range_of(p):
+        """(min, max) of c1 * atom + c0 for a byte atom `B[i]` (0..255) or a masked byte `B[i]&m` (0..m), else None"""
+        ats = p.atoms()
+        if len(ats) != 1:
+            return None
+        a = next(iter(ats))
+        if not a.startswith("B["):
+            return None
+        coef = p.t.get(((a, 1),))
+        if coef is None or set(p.t) - {((a, 1),), ()}:
+            return None
+        top = 255
+        if "]&" in a:
+            try:
+                top = int(a.rsplit("&", 1)[1])
+            except ValueError:
+                return None
+        c0 = p.t.get((), 0)
+        ends = (c0, coef * top + c0)
+        return (min(ends), max(ends))
+
+    def cond_nf(self, e):
+        """('lt', p) (p < 0) for a condition over option integers, a bool when constant, None when not about the option."""
+        try:
+            if isinstance(e, ast.Compare) and len(e.ops) == 1:
+                l, op, r = e.left, e.ops[0], e.comparators[0]
+                wl, wr = self.window(l), self.window(r)
+                if isinstance(op, (ast.Eq, ast.NotEq)) and (wl is not None or wr is not None):
+                    other, w = (r, wl) if wl is not None else (l, wr)
+                    if isinstance(other, ast.Constant) and other.value == b"":
+                        ln = self.winlen(w)
+                        res = nf_lt(ln - Poly.const(1))  # len == 0  <=>  len < 1
+                        return self._const_or(res if isinstance(op, ast.Eq) else nf_ge0(res[1]))
+                    return None
+                if not (self.is_intlike(l) and self.is_intlike(r)):
+                    return None
+                a, b = self.intval(l), self.intval(r)
+                if isinstance(op, ast.Lt):
+                    return self._const_or(nf_lt(a - b))
+                if isinstance(op, ast.Gt):
+                    return self._const_or(nf_lt(b - a))
+                if isinstance(op, ast.LtE):
+                    return self._const_or(nf_lt(a - b - Poly.const(1)))
+                if isinstance(op, ast.GtE):
+                    return self._const_or(nf_lt(b - a - Poly.const(1)))
+                if isinstance(op, (ast.Eq, ast.NotEq)):
+                    # only against zero, for the non-negative quantities of this domain (bytes, masked bytes, lengths)
+                    for x, y in ((a, b), (b, a)):
+                        if y.const_value() == 0:
+                            res = nf_lt(x - Poly.const(1))
+                            return self._const_or(res if isinstance(op, ast.Eq) else nf_ge0(res[1]))
+                    d = (a - b).const_value()
+                    if d is not None:
+                        return (d == 0) == isinstance(op, ast.Eq)
+                    # a == b  <=>  not a < b and not b < a: two decisions of the path (`len(head) != 1`, `len(tail) == s`)
+                    return ("eq" if isinstance(op, ast.Eq) else "ne", a - b)
+                return None
+            w = self.window(e)
+            if w is not None:  # truthiness of a window: its length is positive
+                ln = self.winlen(w)
+                return self._const_or(nf_lt(-ln))
+            if self.is_intlike(e):  # truthiness of a non-negative integer
+                return self._const_or(nf_lt(-self.intval(e)))
+        except norm.NormError:
+            return None
+        return None
+
+    @staticmethod
+    def _const_or(nf):
+        c = nf[1].const_value()
+        return (c < 0) if c is not None else nf
+
+
+# ---------------------------------------------------------------------------
+# module-level integer constants
+
+def consteval_ext(e, env=None):
+    """norm.consteval, plus the spellings module-level integer constants are also derived with: `N.bit_length()`,
+    `N.bit_count()`, max / min / abs / divmod / pow / int over constants, a constant index into a constant tuple.  Raises
+    norm.NormError like consteval."""
+    import copy
+    env = env or {}
+
+    def ints(vals):
+        return all(isinstance(v, int) and not isinstance(v, bool) for v in vals)
+
+    class T(ast.NodeTransformer):
+        def visit_Call(self, n):
+            self.generic_visit(n)
+            try:
+                if isinstance(n.func, ast.Attribute) and n.func.attr in ("bit_length", "bit_count") and not n.args and not n.keywords:
+                    v = norm.consteval(n.func.value, env)
+                    if ints([v]):
+                        return ast.copy_location(ast.Constant(value=getattr(v, n.func.attr)()), n)
+                if isinstance(n.func, ast.Name) and n.func.id in ("max", "min", "abs", "divmod", "pow", "int") and n.func.id not in env and n.args and not n.keywords:
+                    vals = [norm.consteval(a, env) for a in n.args]
+                    if len(vals) == 1 and isinstance(vals[0], (tuple, list)) and n.func.id in ("max", "min"):
+                        vals = list(vals[0])
+                    if ints(vals) and not (n.func.id == "pow" and (len(vals) != 2 or not 0 <= vals[1] < 200)):
+                        r = {"max": max, "min": min, "abs": abs, "divmod": divmod, "pow": pow, "int": int}[n.func.id](*vals)
+                        return ast.copy_location(ast.Constant(value=r), n)
+            except (norm.NormError, TypeError, ValueError, ZeroDivisionError):
+                pass
+            return n
+
+        def visit_Subscript(self, n):
+            self.generic_visit(n)
+            try:
+                if not isinstance(n.slice, ast.Slice):
+                    seq, i = norm.consteval(n.value, env), norm.consteval(n.slice, env)
+                    if isinstance(seq, (tuple, list)) and ints([i]) and -len(seq) <= i < len(seq) and ints([seq[i]]):
+                        return ast.copy_location(ast.Constant(value=seq[i]), n)
+            except norm.NormError:
+                pass
+            return n
+
+    return norm.consteval(T().visit(copy.deepcopy(e)), env)
+
+
+# ---------------------------------------------------------------------------
+# the reader and the writer of the OSCORE option run on ONE concrete value (C11.j)
+
+class ConcreteOptionReader(OptionReader):
+    """_uncompress-like code executed on one concrete option value: the same interpretation as OptionReader (windows of the
+    option, byte reads, masks, lengths), but every integer over the option is a number, so every condition over the option
+    is decided by its value and exactly one path is run.  A read outside the option is the IndexError Python raises."""
+
+    def __init__(self, fi, prog, consts, P=None, data=b"", **kw):
+        super().__init__(fi, prog, consts, P, **kw)
+        if kw.get("top") is None:
+            self.data = bytes(data)
+            self.LEN = Poly.const(len(self.data))
+
+    def _share(self, top):
+        super()._share(top)
+        self.data = top.data
+
+    def new_state(self):
+        st = super().new_state()
+        st["empty"] = len(self.data) == 0
+        return st
+
+    def intval(self, e):
+        if isinstance(e, ast.Subscript) and not isinstance(e.slice, ast.Slice):
+            w = self.window(e.value)
+            if w is not None:
+                pos = (w[0] + self.intval(e.slice)).const_value()
+                hi = w[1].const_value() if w[1] is not None else len(self.data)
+                if pos is None or hi is None or not 0 <= pos < min(hi, len(self.data)):
+                    raise AnalysisError("C11.j: a byte outside the concrete option is used as a value: %s" % txt(e)[:80])
+                return Poly.const(self.data[int(pos)])
+        return super().intval(e)
+
+    def _decide_nf(self, nf):
+        if isinstance(nf, bool):
+            return nf
+        raise AnalysisError("C11.j: a condition over a concrete option did not evaluate to a constant: %r" % (nf,))
+
+    def decide(self, cond):
+        b = self.bytes_of(cond) if self.rewrite_of(cond) is not None else None
+        if b is not None:
+            return bool(b)  # the rewrite is computed on the concrete bytes (the analyser's own sample data)
+        return super().decide(cond)
+
+    def bytes_of(self, e):
+        """the concrete bytes an evaluated expression denotes when it is a window of the option (or a bytes constant, or a
+        content-dependent rewrite of either computed on the concrete bytes), else None"""
+        if isinstance(e, ast.Constant) and isinstance(e.value, bytes):
+            return e.value
+        rw = self.rewrite_of(e)
+        if rw is not None:
+            b = self.bytes_of(rw[1])
+            return getattr(b, rw[0])(*rw[2]) if b is not None else None
+        w = self.window(e)
+        if w is None:
+            return None
+        lo = w[0].const_value()
+        hi = w[1].const_value() if w[1] is not None else len(self.data)
+        if lo is None or hi is None:
+            return None
+        return self.data[int(lo):int(hi)]
+
+
+# ---------------------------------------------------------------------------
+# the writer of the OSCORE option: the map of unprotected fields being drained
+
+FIELD_PREFIX = "F_"
+
+
+class MapModel(Runner):
+    """A map of COSE header fields that the analysed function drains / queries, modelled per key: present / absent is decided
+    once per path when the key is first queried; `U.pop(K[, d])`, `U.get(K[, d])`, `U[K]`, `K in U`, `del U[K]`, truthiness,
+    `len(U)` and comparison with `{}` are all the same queries on that state (pop and del remove the key; pop / [] / del of an
+    absent key raise KeyError, which is routed to the matching handler).  The value of a present key K is the symbol F_<K>.
+    `is_map(e)` says which evaluated expression denotes the map; `where` names the function in refusal messages."""
+
+    def __init__(self, fi, prog, keyname, where, **kw):
+        super().__init__(fi, prog=prog, **kw)
+        self.keyname = keyname  # evaluated key expression -> 'COSE_KID' | None
+        self.where = where
+
+    def new_state(self):
+        return {"had": {}, "cur": {}, "syms": {}, "nf": set(), "other": None, "epoch": 0, "lens": {}}
+
+    def is_map(self, e):
+        raise NotImplementedError
+
+    # -- queries are evaluated where they are written ------------------------------------------
+    # `K in U`, `K not in U`, `U == {}`, `bool(U)`, `not U` are *values* of the moment they are evaluated at: a flag
+    # `has_k = K in U` that is tested again after `U.pop(K)` still says what it said when it was computed.  The generic
+    # runner keeps an undecided condition as an expression and decides it when it is tested; for a query on the mutable map
+    # that would read the state of the later moment.  So every boolean query on the map is decided (the path forks) as soon
+    # as it is evaluated and replaced by its truth value; the decision is recorded in path.conds like any tested
+    # condition.  `len(U)` stays symbolic, stamped with the state it was taken in: testing it after a removal is refused.
+    def _is_bool_query(self, e):
+        if isinstance(e, ast.Compare) and len(e.ops) == 1 and (self._is_U(e.left) or self._is_U(e.comparators[0])):
+            return True
+        if isinstance(e, ast.UnaryOp) and isinstance(e.op, ast.Not) and self._is_U(e.operand):
+            return True
+        if isinstance(e, ast.Call) and isinstance(e.func, ast.Name) and e.func.id == "bool" and len(e.args) == 1 and not e.keywords and self._is_U(e.args[0]):
+            return True
+        return False
+
+    def ev(self, e, bound=frozenset()):
+        out = super().ev(e, bound)
+        if bound or out is None or not isinstance(out, (ast.Compare, ast.UnaryOp, ast.Call)):
+            return out
+        if _is_len(out) and self._is_U(out.args[0]):
+            self.state["lens"][id(out)] = (self.state["epoch"], out)
+            return out
+        if self._is_bool_query(out):
+            neg = isinstance(out, ast.UnaryOp)
+            v = self.decide_map(out.operand if neg else (out.args[0] if isinstance(out, ast.Call) else out))
+            if isinstance(v, bool):
+                v = (not v) if neg else v
+                self.path.conds.append((out, v, self.nid))
+                return ast.copy_location(ast.Constant(value=v), out)
+        return out
+
+    def _removed(self, k):
+        self.state["cur"][k] = False
+        self.state["epoch"] += 1
+
+    def _check_len_epoch(self, e):
+        for x in ast.walk(e):
+            if _is_len(x) and self._is_U(x.args[0]):
+                rec = self.state["lens"].get(id(x))
+                if rec is not None and rec[1] is x and rec[0] != self.state["epoch"]:
+                    raise AnalysisError("%s tests the size of the map of unprotected fields as it was before fields were removed from it: %s" % (self.where, txt(e)[:80]))
+
+    def _is_U(self, e):
+        return self.is_map(e)
+
+    def _key(self, e, what):
+        k = self.keyname(e)
+        if k is None:
+            raise AnalysisError("%s accesses the map of unprotected fields with a key that is not a COSE_* constant (%s)" % (self.where, what))
+        return k
+
+    def has(self, k):
+        s = self.state
+        if k not in s["cur"]:
+            v = self.choose("has:" + k)
+            s["had"][k] = s["cur"][k] = v
+        return s["cur"][k]
+
+    def field(self, k):
+        s = self.state["syms"]
+        if k not in s:
+            s[k] = ast.Name(id=FIELD_PREFIX + k, ctx=ast.Load())
+        return s[k]
+
+    def nonempty(self):
+        s = self.state
+        if any(s["cur"].values()):
+            return True
+        if s["other"] is None:
+            s["other"] = self.choose("has:<other keys>")
+        return s["other"]
+
+    def eval_hook(self, e):
+        if isinstance(e, ast.Call) and isinstance(e.func, ast.Attribute) and self._is_U(e.func.value):
+            m = e.func.attr
+            if m in ("pop", "get") and 1 <= len(e.args) <= 2 and not e.keywords:
+                k = self._key(e.args[0], txt(e))
+                if self.has(k):
+                    if m == "pop":
+                        self._removed(k)
+                    return self.field(k)
+                if len(e.args) == 2:
+                    return e.args[1]
+                if m == "get":
+                    return ast.Constant(value=None)
+                raise PyRaise("KeyError")
+            raise AnalysisError("%s uses the map of unprotected fields in a way the rule cannot interpret: %s" % (self.where, txt(e)))
+        if isinstance(e, ast.Subscript) and self._is_U(e.value):
+            k = self._key(e.slice, txt(e))
+            if self.has(k):
+                return self.field(k)
+            raise PyRaise("KeyError")
+        if isinstance(e, ast.Call) and any(self._is_U(a) for a in list(e.args) + [kw.value for kw in e.keywords]):
+            if _is_len(e) or (isinstance(e.func, ast.Name) and e.func.id == "bool") or _is_log(e):
+                return None
+            raise AnalysisError("%s hands the map of unprotected fields to other code: %s" % (self.where, txt(e)))
+        return None
+
+    def on_delete(self, t):
+        if isinstance(t, ast.Subscript) and self._is_U(self.ev(t.value)):
+            k = self._key(self.ev(t.slice), "del")
+            if not self.has(k):
+                raise PyRaise("KeyError")
+            self._removed(k)
+            return True
+        return False
+
+    def _bind(self, tgt, v, stmt):
+        if isinstance(tgt, ast.Subscript) and self._is_U(self.ev(tgt.value)):
+            raise AnalysisError("%s stores into the map of unprotected fields" % self.where)
+        return super()._bind(tgt, v, stmt)
+
+    def decide_map(self, e):
+        """bool for a condition that is a query on the map, else None"""
+        self._check_len_epoch(e)
+        if isinstance(e, ast.Compare) and len(e.ops) == 1 and isinstance(e.ops[0], (ast.In, ast.NotIn)) and self._is_U(e.comparators[0]):
+            v = self.has(self._key(e.left, txt(e)))
+            return v == isinstance(e.ops[0], ast.In)
+        if self._is_U(e):
+            return self.nonempty()
+        if isinstance(e, ast.Compare) and len(e.ops) == 1 and any(self._is_U(x) for x in (e.left, e.comparators[0])):
+            other = e.comparators[0] if self._is_U(e.left) else e.left
+            if isinstance(other, ast.Dict) and not other.keys and isinstance(e.ops[0], (ast.Eq, ast.NotEq)):
+                return self.nonempty() == isinstance(e.ops[0], ast.NotEq)
+            raise AnalysisError("%s compares the map of unprotected fields in a way the rule cannot interpret: %s" % (self.where, txt(e)))
+        if isinstance(e, ast.Compare) and len(e.ops) == 1 and isinstance(e.ops[0], (ast.Is, ast.IsNot, ast.Eq, ast.NotEq)):
+            for x, y in ((e.left, e.comparators[0]), (e.comparators[0], e.left)):
+                if isinstance(x, ast.Name) and x.id.startswith(FIELD_PREFIX) and isinstance(y, ast.Constant) and y.value is None:
+                    # A present field is never None: protect() stores byte strings, _uncompress stores slices of the option or
+                    # the PRESENT_BUT_NO_VALUE_YET sentinel (C11.d decides exactly that).  This is what makes
+                    # `pop(K, None) is None` / `get(K) is None` the same test as `K not in map`.
+                    return isinstance(e.ops[0], (ast.IsNot, ast.NotEq))
+        tv = truth_view(e, True)
+        if tv is not None and self._is_U(tv[0]):
+            return self.nonempty() == tv[1]
+        if isinstance(e, ast.Compare) and any(_is_len(x) and self._is_U(x.args[0]) for x in ast.walk(e)):
+            raise AnalysisError("%s compares len(<map of unprotected fields>) in a way the rule cannot interpret: %s" % (self.where, txt(e)))
+        return None
+
+    def decide(self, cond):
+        return self.decide_map(cond)
+
+
+class OptionWriter(MapModel):
+    """Interprets _compress-like code: the MapModel for its map parameter U plus the arithmetic of the flag byte."""
+
+    def __init__(self, fi, prog, consts, U, keyname):
+        super().__init__(fi, prog, keyname, "C11.d: _compress", fork_values=True)
+        self.consts = consts
+        self.U = U
+
+    def is_map(self, e):
+        return isinstance(e, ast.Name) and e.id == self.U
+
+    def _bind(self, tgt, v, stmt):
+        if isinstance(tgt, ast.Name) and tgt.id == self.U:
+            raise AnalysisError("C11.d: _compress rebinds the unprotected map")
+        return super()._bind(tgt, v, stmt)
+
+    # -- flag byte values: (base polynomial, or-ed constant bits)
+    def flagval(self, e):
+        if isinstance(e, ast.Constant) and isinstance(e.value, int) and not isinstance(e.value, bool):
+            return (Poly.const(0), e.value)
+        if isinstance(e, ast.Name) and e.id in self.consts:
+            return (Poly.const(0), self.consts[e.id])
+        if _is_len(e):
+            a = e.args[0]
+            if isinstance(a, ast.Constant) and isinstance(a.value, bytes):
+                return (Poly.const(0), len(a.value))
+            if isinstance(a, ast.Name) and a.id.startswith(FIELD_PREFIX):
+                return (Poly.atom("len(%s)" % a.id), 0)
+            return None
+        if isinstance(e, ast.BinOp) and isinstance(e.op, (ast.BitOr, ast.Add)):
+            l, r = self.flagval(e.left), self.flagval(e.right)
+            if l is None or r is None:
+                return None
+            if l[0].const_value() != 0 and r[0].const_value() != 0:
+                return None
+            base = l[0] + r[0]
+            if isinstance(e.op, ast.Add) and (l[1] & r[1] or (base.const_value() != 0 and (l[1] | r[1]) & 0b111)):
+                # `+` is `|` only for disjoint bits; the non-constant part is the partial IV length, which is required to be
+                # at most COMPRESSION_BITS_N on every returning path and so lives in the low three bits
+                return None
+            return (base, l[1] | r[1])
+        return None
+
+    def decide(self, cond):
+        e = cond
+        m = self.decide_map(e)
+        if m is not None:
+            return m
+        tv = truth_view(e, True)
+        # the flag byte (or any integer built like it): non-zero as soon as a constant bit is or-ed in
+        sub = None
+        if self.flagval(e) is not None:
+            sub = (self.flagval(e), True)
+        elif tv is not None:
+            fv = self.flagval(tv[0])
+            if fv is None and isinstance(tv[0], ast.Name) and tv[0].id.startswith(FIELD_PREFIX):
+                fv = (Poly.atom("len(%s)" % tv[0].id), 0)  # a byte string is true when its length is non-zero
+            if fv is not None:
+                sub = (fv, tv[1])
+        if sub is not None:
+            fv, pol = sub
+            if fv[1] != 0:
+                return pol
+            c = fv[0].const_value()
+            if c is not None:
+                return (c != 0) == pol
+            v = self.choose("nz:%r" % (fv[0],))
+            self.state["nf"].add(nf_lt(-fv[0]) if v else nf_lt(fv[0] - Poly.const(1)))
+            return v == pol
+        # integer comparisons (length limits)
+        if isinstance(e, ast.Compare) and len(e.ops) == 1 and isinstance(e.ops[0], (ast.Lt, ast.Gt, ast.LtE, ast.GtE)):
+            N = norm.Normalizer(penv={k: Poly.const(v) for k, v in self.consts.items()})
+            try:
+                nf = N.cmp(e)
+            except norm.NormError:
+                return None
+            c = nf[1].const_value()
+            if c is not None:
+                return c < 0
+            neg = N.negate(nf)
+            a, b = repr(nf), repr(neg)
+            key, pol = (a, True) if a <= b else (b, False)
+            v = self.choose("int:" + key) == pol
+            self.state["nf"].add(nf if v else neg)
+            return v
+        return None
+
+
+class ConcreteOptionWriter(OptionWriter):
+    """_compress-like code executed on one concrete map of fields {COSE key name: bytes}: presence is what the map says, a
+    present field is its byte string (so lengths are numbers and every limit test is decided by its value); the first
+    parameter (the protected header map, always {} in protect()) is the empty map."""
+
+    def __init__(self, fi, prog, consts, U, keyname, fields, empty_params=()):
+        super().__init__(fi, prog, consts, U, keyname)
+        self.fields = dict(fields)
+        self.empty_params = tuple(empty_params)
+
+    def initial_env(self):
+        return {n: ast.Dict(keys=[], values=[]) for n in self.empty_params}
+
+    def new_state(self):
+        st = super().new_state()
+        st["other"] = False
+        return st
+
+    def has(self, k):
+        s = self.state
+        if k not in s["cur"]:
+            s["had"][k] = s["cur"][k] = k in self.fields
+        return s["cur"][k]
+
+    def field(self, k):
+        s = self.state["syms"]
+        if k not in s:
+            s[k] = ast.Constant(value=self.fields[k])
+        return s[k]
+
+    def concrete_bytes(self, e):
+        """the byte string an evaluated bytes expression denotes, None when a part is not a constant"""
+        parts = byte_parts(e)
+        if parts is None:
+            return None
+        out = b""
+        for kind, x in parts:
+            if kind == "lit":
+                out += x
+            elif kind == "byte":
+                fv = self.flagval(x)
+                c = fv[0].const_value() if fv is not None else None
+                if c is None or c != int(c) or not 0 <= (int(c) | fv[1]) < 256:
+                    return None
+                out += bytes([int(c) | fv[1]])
+            else:
+                return None
+        return out
+
+
+def byte_parts(e):
+    """Decompose an evaluated bytes expression into parts: ('byte', expr) for bytes([x]) / bytes((x,)) / x.to_bytes(1, ..),
+    ('field', name) for F_<K>, ('lit', b'..'); b'' vanishes; `+`, b''.join([...]) and bytes([a, b]) are concatenations.
+    None when a part is not understood."""
+    if isinstance(e, ast.BinOp) and isinstance(e.op, ast.Add):
+        l, r = byte_parts(e.left), byte_parts(e.right)
+        return None if l is None or r is None else l + r
+    if isinstance(e, ast.Constant) and isinstance(e.value, bytes):
+        return [] if not e.value else [("lit", e.value)]
+    if isinstance(e, ast.Name) and e.id.startswith(FIELD_PREFIX):
+        return [("field", e.id[len(FIELD_PREFIX):])]
+    if isinstance(e, ast.Call) and isinstance(e.func, ast.Name) and e.func.id == "bytes" and not e.keywords:
+        if not e.args:
+            return []
+        if len(e.args) == 1 and isinstance(e.args[0], (ast.List, ast.Tuple)) and not any(isinstance(x, ast.Starred) for x in e.args[0].elts):
+            return [("byte", x) for x in e.args[0].elts]
+        if len(e.args) == 1 and isinstance(e.args[0], ast.Name) and e.args[0].id.startswith(FIELD_PREFIX):
+            return [("field", e.args[0].id[len(FIELD_PREFIX):])]
+        return None
+    if isinstance(e, ast.Call) and isinstance(e.func, ast.Attribute) and e.func.attr == "to_bytes" and e.args \
+            and isinstance(e.args[0], ast.Constant) and e.args[0].value == 1:
+        return [("byte", e.func.value)]
+    if isinstance(e, ast.Call) and isinstance(e.func, ast.Attribute) and e.func.attr == "join" and isinstance(e.func.value, ast.Constant) and e.func.value.value == b"" \
+            and len(e.args) == 1 and isinstance(e.args[0], (ast.List, ast.Tuple)) and not any(isinstance(x, ast.Starred) for x in e.args[0].elts):
+        out = []
+        for x in e.args[0].elts:
+            p = byte_parts(x)
+            if p is None:
+                return None
+            out += p
+        return out
+    return None
+
+
+# ---------------------------------------------------------------------------
+# values answered from state (C11.k): keyed reads of containers that outlive the activation
+
+STORE_READS = ("get", "pop", "setdefault", "__getitem__")
+
+
+class StateRunner(Runner):
+    """The path runner for functions that may answer from a store that outlives the activation (`C[k]`, C an attribute chain
+    rooted in self / cls or a module-level name).  Such a read can miss: where a KeyError would be caught inside the function
+    (`try: return C[k]` / `except KeyError:`) the read is a decision of the path -- hit: the value is the read itself; miss:
+    KeyError, routed to the handler -- so both the answering and the computing path are enumerated, like they are for the
+    `k in C` / `C.get(k)` spellings."""
+
+    def _is_state(self, e):
+        c = state_chain(e)
+        if c is None:
+            return False
+        if c.startswith("type("):
+            return True
+        root = c.split(".")[0]
+        a = self.fi.node.args
+        pnames = [x.arg for x in a.posonlyargs + a.args + a.kwonlyargs]
+        if pnames and root == pnames[0] and "." in c and self.fi.cls is not None:
+            return True
+        return root not in pnames and root not in self.env and "." not in c and not root.startswith("‹")
+
+    def decide(self, cond):
+        # nothing is in a container that was created empty on this very path
+        if isinstance(cond, ast.Compare) and len(cond.ops) == 1 and isinstance(cond.ops[0], (ast.In, ast.NotIn)) and isinstance(cond.comparators[0], ast.Dict) \
+                and not cond.comparators[0].keys:
+            return isinstance(cond.ops[0], ast.NotIn)
+        return None
+
+    def eval_hook(self, e):
+        if isinstance(e, ast.Subscript) and not isinstance(e.slice, ast.Slice) and self._is_state(e.value):
+            tgt = self._exc_target(self.nid, "KeyError")
+            if tgt != self.cfg.rexit and self.cfg.nodes[tgt].kind == "handler":
+                if not self.choose("hit:" + txt(e)[:120]):
+                    raise PyRaise("KeyError")
+        return None
+
+
+def state_chain(e):
+    """chain(e), also for an attribute chain on the class of an object: `type(x).a.b` -> 'type(x).a.b', `x.__class__.a` -> 'type(x).a'"""
+    c = chain(e)
+    if c is not None:
+        parts = c.split(".")
+        if len(parts) >= 3 and parts[1] == "__class__":
+            return "type(%s).%s" % (parts[0], ".".join(parts[2:]))
+        return c
+    parts = []
+    while isinstance(e, ast.Attribute):
+        parts.append(e.attr)
+        e = e.value
+    if parts and isinstance(e, ast.Call) and isinstance(e.func, ast.Name) and e.func.id == "type" and len(e.args) == 1 and not e.keywords and isinstance(e.args[0], ast.Name):
+        return "type(%s).%s" % (e.args[0].id, ".".join(reversed(parts)))
+    return None
+
+
+def store_read(v):
+    """(container, key, call-or-subscript) when the evaluated value is read out of a keyed container (`C[k]`, `C.get(k[, d])`,
+    `C.pop(k[, d])`, `C.setdefault(k, d)`), possibly behind constant indexing / attribute reads of the entry; else None."""
+    while True:
+        if isinstance(v, ast.Subscript) and not isinstance(v.slice, ast.Slice):
+            if state_chain(v.value) is not None and not (isinstance(v.slice, ast.Constant) and isinstance(v.slice.value, int)):
+                return v.value, v.slice, v
+            v = v.value  # a constant index: a component of the entry
+        elif isinstance(v, ast.Attribute):
+            v = v.value
+        elif isinstance(v, ast.Call) and isinstance(v.func, ast.Attribute) and v.func.attr in STORE_READS and v.args and state_chain(v.func.value) is not None:
+            return v.func.value, v.args[0], v
+        else:
+            return None
+
+
+def input_atoms(e, selfname, params):
+    """The inputs an evaluated expression is computed from, as far as they are named: parameters of the function and
+    first-level attributes of self (`self.x...`, hasattr / getattr(self, 'x')); 'self' itself when the object is used whole
+    (as an argument, `id(self)`).  Calls through self (`self.m(..)`) are returned separately: [(method name, call)]."""
+    atoms, calls = set(), []
+
+    def visit(n, is_func=False):
+        if isinstance(n, ast.Call):
+            if _is_log(n):
+                return
+            f = n.func
+            if isinstance(f, ast.Attribute) and isinstance(f.value, ast.Name) and f.value.id == selfname:
+                calls.append((f.attr, n))
+            elif isinstance(f, ast.Name) and f.id in ("hasattr", "getattr") and len(n.args) >= 2 and isinstance(n.args[0], ast.Name) and n.args[0].id == selfname \
+                    and isinstance(n.args[1], ast.Constant) and isinstance(n.args[1].value, str):
+                atoms.add("%s.%s" % (selfname, n.args[1].value))
+                for a in n.args[2:]:
+                    visit(a)
+                return
+            elif isinstance(f, ast.Name) and f.id == "isinstance":
+                return
+            else:
+                visit(f, True)
+            for a in list(n.args) + [k.value for k in n.keywords]:
+                visit(a)
+            return
+        if isinstance(n, ast.Attribute):
+            c = chain(n)
+            if c is not None:
+                parts = c.split(".")
+                if parts[0] == selfname:
+                    atoms.add("%s.%s" % (selfname, parts[1]))
+                elif parts[0] in params:
+                    atoms.add(parts[0])
+                return
+            visit(n.value)
+            return
+        if isinstance(n, ast.Name):
+            if n.id == selfname:
+                atoms.add(selfname)
+            elif n.id in params:
+                atoms.add(n.id)
+            return
+        for c in ast.iter_child_nodes(n):
+            if isinstance(c, (ast.expr, ast.comprehension, ast.keyword)):
+                visit(c)
+
+    visit(e)
+    return atoms, calls
